@@ -49,7 +49,15 @@ def O2(blocks, tags=(), ncols=1):
     return ("O", tuple(tags), ncols, tuple((tuple(t), tuple(tuple(r) for r in rows)) for t, rows in blocks))
 
 
+def is_placeholder(outcome):
+    """background step whose outcome is taken from column K of the examples row: "<oK>" (outline rows only;
+    for a plain scenario the literal text has no step definition -> undefined)"""
+    return outcome.startswith("<o") and outcome.endswith(">")
+
+
 def step_text(sid, outcome):
+    if is_placeholder(outcome):
+        return "step %d %s" % (sid, outcome)
     if outcome == "undefined":
         return "nodef %d thing" % sid
     if outcome == "convert":
@@ -91,7 +99,8 @@ def _walk_items(cont, path, inh_tags, inh_bg, sid):
             for o in it[2]:
                 sid[0] += 1
                 steps.append((sid[0], o))
-            yield p, "S", {"tags": tags + tuple(it[1]), "own": tuple(it[1]), "steps": bgs + steps, "nbg": len(bgs),
+            sbgs = [(sid_, "undefined" if is_placeholder(o_) else o_) for sid_, o_ in bgs]
+            yield p, "S", {"tags": tags + tuple(it[1]), "own": tuple(it[1]), "steps": sbgs + steps, "nbg": len(bgs),
                            "names": [step_text(sid_, o_) for sid_, o_ in bgs + steps]}
         elif it[0] == "O":
             ncols = it[2]
@@ -102,11 +111,13 @@ def _walk_items(cont, path, inh_tags, inh_bg, sid):
             ri = 0
             for extags, rows in it[3]:
                 for row in rows:
-                    own = tuple((row[ncols] if t == PTAG else t) for t in it[1]) + tuple(extags)
+                    own = tuple((row[-1] if t == PTAG else t) for t in it[1]) + tuple(extags)
                     steps = [(tsids[c], row[c]) for c in range(ncols)]
-                    names = [step_text(sid_, o_) for sid_, o_ in bgs] + \
+                    rbgs = [(sid_, row[int(o_[2:-1])] if is_placeholder(o_) else o_) for sid_, o_ in bgs]
+                    names = [("step %d %s" % (sid_, cell_text(row[int(o_[2:-1])])) if is_placeholder(o_)
+                              else step_text(sid_, o_)) for sid_, o_ in bgs] + \
                             ["step %d %s" % (tsids[c], cell_text(row[c])) for c in range(ncols)]
-                    yield p + (ri,), "row", {"tags": tags + own, "own": own, "steps": bgs + steps,
+                    yield p + (ri,), "row", {"tags": tags + own, "own": own, "steps": rbgs + steps,
                                               "nbg": len(bgs), "outline": p, "names": names}
                     ri += 1
         else:
@@ -273,10 +284,11 @@ def render(feature, fi=0, indent="  ", language=None):
                 for b, (extags, rows) in enumerate(it[3]):
                     tagline(extags, ind + indent * 2)
                     emit("%sExamples: E%d" % (ind + indent * 2, b))
-                    cols = ["o%d" % c for c in range(ncols)] + (["tg"] if has_ptag else [])
+                    width = max([len(r) for r in rows] + [ncols + (1 if has_ptag else 0)]) - (1 if has_ptag else 0)
+                    cols = ["o%d" % c for c in range(width)] + (["tg"] if has_ptag else [])
                     emit("%s| %s |" % (ind + indent * 3, " | ".join(cols)))
                     for row in rows:
-                        cells = [cell_text(v) for v in row]
+                        cells = [cell_text(v) for v in row[:width]] + ([row[-1]] if has_ptag else [])
                         meta["lines"][p + (ri,)] = emit("%s| %s |" % (ind + indent * 3, " | ".join(cells)))
                         ri += 1
             else:
